@@ -51,7 +51,7 @@ class C03(Check):
                                 flavours=['valid'] * 10 + ['unknown-method'] * 2 + ['deviant', 'deviant', 'non-object'])
             return st.builds(
                 lambda text, beh, mbs, codec: {'dispatcher': kind, 'max_batch_size': batch_limit(text, mbs), 'behaviours': beh, 'text': text, 'codec': codec},
-                gen, stdreg.behaviours(), st.sampled_from(BATCH_LIMITS), st.sampled_from(CODEC_CHOICES),
+                gen, stdreg.behaviours(True), st.sampled_from(BATCH_LIMITS), st.sampled_from(CODEC_CHOICES),
             )
         return st.one_of(for_kind('sync'), for_kind('async'))
 
